@@ -55,6 +55,19 @@ def check(res, rng, dtype, shape, mag, desc):
     if shape == 'scalar':
         if not p.isscalar or np.ndim(p.x) or np.ndim(p.y):
             return res.violation('a scalar pair does not stay scalar', case=desc)
+        for name, op in (('len', len), ('iteration', lambda v: list(v)), ('indexing', lambda v: v[0])):
+            try:       # same outcome as on the scalar x itself: an error
+                op(x)
+                ok_on_x = True
+            except (TypeError, IndexError):
+                ok_on_x = False
+            try:
+                op(p)
+                ok_on_p = True
+            except (TypeError, IndexError):
+                ok_on_p = False
+            if ok_on_x != ok_on_p:
+                return res.violation(f'{name} of a scalar coordinate {"succeeds" if ok_on_p else "fails"} while {name} of its scalar x {"succeeds" if ok_on_x else "fails"}', case=desc)
     else:
         if p.isscalar or np.shape(p.x) != bx.shape or np.shape(p.y) != bx.shape:
             return res.violation(f'shape {np.shape(p.x)} / {np.shape(p.y)} is not the broadcast shape {bx.shape}', case=desc)
